@@ -147,7 +147,7 @@ class C17(Harness):
             if k in ("tsf-transform", "tsf-transform-int"):
                 Xt = tsf._transform(X3[:, 0, :], np.array(inp["intervals"]))
                 return {"features": [[S(v) for v in row] for row in Xt.tolist()]}
-            labels = [[0, 1, 2], ["a", "b", "c"], [3, 7, 11]][inp["labels"]]
+            labels = [[0, 1, 2], ["a", "bbbb", "cc"], [3, 7, 11]][inp["labels"]]  # (strings of unequal length, the first one shortest)
             p = inp["p"]
             ne, nk = len(p), len(p[0][0])
             seen = []
